@@ -400,6 +400,7 @@ class C37(core.Check):
     quick_runs = 30000
     thorough_budget_s = 900
     chunk = 500
+    history_dependent = True     # the generated module's ffi object (its tables and caches) outlives a run
     crash_clause = 'C37.2'
     rule = ('one run = a seeded history of up to 30 operations on up to 3 library objects opened on one compiled '
             'test library in both in-line and out-of-line ABI mode (fetch/call function, read/write int, array '
